@@ -184,6 +184,16 @@ def all_cases(ctx):
                             if drain == 'sip' and size > 2 * 65536 + 1:
                                 continue
                             add('slowclient', fr=fr, ck=ck, size=size, ver=ver, cache=cache, cut=comp, drain=drain)
+    # F6 refwd: two forwarding paths (two originserver cache_peers played by the driver).  The first path answers
+    # a small complete 502, which makes Squid re-forward the request; the second path sends the case's message,
+    # complete or cut.  State left over from the abandoned first attempt must not make a cut body look complete.
+    for fr, ck in [('cl', '-'), ('chunked', 'one'), ('chunked', 'page'), ('close', '-')]:
+        for size in [7, page + 1, k['read_ahead_gap'] + 1] + ([65537] if T else []):
+            for ver in ('1.1', '1.0'):
+                for comp in (None, 'm1', 'half', 'head'):
+                    if comp is not None and fr == 'close':
+                        continue
+                    add('refwd', fr=fr, ck=ck, size=size, ver=ver, cache=0, cut=comp)
     return cases
 
 
@@ -225,9 +235,10 @@ def transact(w, request, plan_for, max_rounds=3000, slow=None):
         t.rounds += 1
         sq.settle()
         progressed = False
-        for oc in w.origin.accept_all():
-            oconns.append({'c': oc, 'raw': b'', 'upto': 0, 'feeder': None})
-            progressed = True
+        for lst in [w.origin] + list(getattr(w, 'more_origins', [])):
+            for oc in lst.accept_all():
+                oconns.append({'c': oc, 'raw': b'', 'upto': 0, 'feeder': None})
+                progressed = True
         for o in oconns:
             oc = o['c']
             if oc.closed:
@@ -291,8 +302,9 @@ def transact(w, request, plan_for, max_rounds=3000, slow=None):
     for o in oconns:
         o['c'].close()
     sq.settle(1)
-    for oc in w.origin.accept_all():      # nothing may be left behind for the next case
-        oc.close()
+    for lst in [w.origin] + list(getattr(w, 'more_origins', [])):
+        for oc in lst.accept_all():      # nothing may be left behind for the next case
+            oc.close()
     return t
 
 
@@ -395,8 +407,17 @@ def run_case(w, case):
     # second response (only ever sent if Squid contacts the origin again): version 2, complete, one piece
     head2, payload2, body2 = origin_message(case, 2)
 
+    refwd = case['fam'] == 'refwd'
+    bad_gateway = ('HTTP/1.1 502 Bad Gateway\r\nDate: %s\r\nContent-Length: 3\r\nX-First-Path: 1\r\n\r\nbad' % ls.http_date(w.sq.now_us)).encode('latin1')
+
     def plan_for(n, reqmsg):
-        if n == 0:
+        if refwd:
+            # first path: a complete 502; second path: the message under test; anything later: version 2
+            if n == 0:
+                return ([bad_gateway], None)
+            if n == 1:
+                return (pieces, then)
+        elif n == 0:
             return (pieces, then)
         return ([head2 + payload2], 'close' if case['fr'] == 'close' else None)
     violation = None
@@ -404,7 +425,13 @@ def run_case(w, case):
     t1 = transact(w, request_bytes(w, path, case['ver']), plan_for, slow=case.get('drain'))
     if t1.stalled:
         raise HarnessError('case %s: origin could not send its response (back-pressure never released)' % describe(case))
-    if len(t1.origin_reqs) != 1:
+    if refwd and len(t1.origin_reqs) == 1:
+        cls1 = 'refwd-not-reforwarded'       # Squid may relay the first path's 502 instead of trying the second path
+    elif refwd and len(t1.origin_reqs) == 2:
+        t1.origin_raw = b''                   # (peer requests differ in volatile details; keep the transcript stable)
+        cls1, violation = check_response(t1, case, case['ver'], [body1], sent_body, upstream_complete)
+        cls1 = 'refwd>' + cls1
+    elif len(t1.origin_reqs) != 1:
         cls1 = 'origin-requests-%d' % len(t1.origin_reqs)
         violation = 'first request: the origin saw %d requests' % len(t1.origin_reqs)
     else:
@@ -460,8 +487,28 @@ def make_world_small(ctx, shard):
     return br.patient_world(ctx, 's%d' % shard, ls.port_base_for_check(ctx.pid, shard), conf=CONF + br.SMALLBUF_CONF, memory_cache=True)
 
 
+def make_world_refwd(ctx, shard):
+    """Two forwarding paths: two originserver cache_peers on 127.0.0.1 (ports +1 and +5), both played by the driver."""
+    pb = ls.port_base_for_check(ctx.pid, shard)
+    conf = CONF + ('cache_peer 127.0.0.1 parent %d 0 no-query no-digest originserver name=pathA\n'
+                   'cache_peer 127.0.0.1 parent %d 0 no-query no-digest originserver name=pathB\n'
+                   'never_direct allow all\n' % (pb + 1, pb + 5))
+    w = br.patient_world(ctx, 'p%d' % shard, pb, conf=conf, memory_cache=True)
+    w.more_origins = [ls.Listener(pb + 5)]
+    stop0 = w.stop
+
+    def stop():
+        try:
+            stop0()
+        finally:
+            for l in w.more_origins:
+                l.close()
+    w.stop = stop
+    return w
+
+
 def world_maker(case):
-    return make_world_small if case['fam'] == 'slowclient' else make_world
+    return make_world_small if case['fam'] == 'slowclient' else make_world_refwd if case['fam'] == 'refwd' else make_world
 
 
 ASSUME = ['the real squid binary (ASan build of the current tree) runs under the lock-step/virtual-time shim; client and origin are played by the driver',
@@ -494,9 +541,11 @@ def run(ctx):
 
     def rc(w, case):
         return run_case(w, case)
-    r = ls.run_cases(ctx, [c for c in cases if c['fam'] != 'slowclient'], rc, make_world, key_of=key_of, determinism_n=10)
+    r = ls.run_cases(ctx, [c for c in cases if c['fam'] not in ('slowclient', 'refwd')], rc, make_world, key_of=key_of, determinism_n=10)
     r2 = ls.run_cases(ctx, [c for c in cases if c['fam'] == 'slowclient'], rc, make_world_small, key_of=key_of, determinism_n=3, nshards=4)
     r = br.merge_results(r, r2)
+    r3 = ls.run_cases(ctx, [c for c in cases if c['fam'] == 'refwd'], rc, make_world_refwd, key_of=key_of, determinism_n=3, nshards=4)
+    r = br.merge_results(r, r3)
     oc = r['outcomes']
     complete = sum(v for k, v in oc.items() if ':complete' in k.split(' | ')[0])
     truncated = sum(v for k, v in oc.items() if ':truncated+close' in k.split(' | ')[0])
@@ -505,6 +554,9 @@ def run(ctx):
     relayed = sum(v for k, v in oc.items() if '>' in k.split(' | ')[0].split(':')[0])
     held = sum(v for k, v in oc.items() if '[held-in-squid]' in k)
     done = r['evaluations'] == len(cases) and not r['deadline_hit']
+    reforwarded = sum(v for k, v in oc.items() if k.startswith('refwd>'))
+    if not r['violations'] and done and reforwarded < 20:
+        raise HarnessError('vacuity guard: only %d re-forwarded transactions in the two-path family: %r' % (reforwarded, oc))
     if not r['violations'] and done and held < 50:
         raise HarnessError('vacuity guard: only %d slow-client cases made the body wait inside Squid: %r' % (held, oc))
     if not r['violations'] and done:
@@ -520,7 +572,7 @@ def run(ctx):
     cov = {'evaluations': r['evaluations'], 'distinct_nontrivial': relayed, 'rule': RULE, 'samples': samples,
            'outcome_classes': oc, 'exhaustive': done, 'kicks': r['kicks'], 'determinism_replays': r['replays'],
            'cases_total': len(cases), 'cases_per_family': fams, 'complete_relays': complete, 'visible_truncations': truncated,
-           'cache_hits_checked': hits, 'second_request_misses': misses, 'slow_client_bodies_held_in_squid': held,
+           'cache_hits_checked': hits, 'second_request_misses': misses, 'slow_client_bodies_held_in_squid': held, 'reforwarded_after_502': reforwarded,
            'sizes_B': sizes_B(ctx)}
     return Result(LEVEL, cov, vio, ASSUME)
 
